@@ -15,6 +15,13 @@ Fixpoint live_opt (log : list point) (R e : Z) : option Z :=
 Definition live (log : list point) (R e : Z) : Z :=
   match live_opt log R e with Some v => v | None => NaN end.
 
+(** the value a list of points carries for interval [e] (first entry wins) *)
+Fixpoint find_time (es : list point) (e : Z) : option Z :=
+  match es with
+  | [] => None
+  | p :: r => if p_time p =? e then Some (p_val p) else find_time r e
+  end.
+
 (** The shape of a fetch result: a function of layout, window and clock only (C04). *)
 Inductive shape := SErrInterval | SErrArchive | SNone | SShape (f u step n : Z).
 
